@@ -82,6 +82,16 @@ CLAIMED = {
             '§6 C17',
             'partial: the location clause depends on the whole nom grammar and is search-only; columns are not part of the property',
             'Coq proof (invariant by induction over operations) + differential correspondence + corruption search'),
+    'C13': ('proof',
+            'Theorem for trivia of ANY length and composition (white-space, `-- .. --`, `-- .. EOL`, `/* .. */` also nested, arbitrary '
+            'bytes inside): the skipper in front of every token parser removes it exactly; the block-comment scanner never reads out of '
+            'range. Hand model of the scanners tied by correspondence through hooks (random piece concatenations incl. unterminated and '
+            'overlapping forms). That each combinator site applies the skipper is measured: every token boundary of a module covering the '
+            'layout grammar x every separator form, plus random multi-boundary re-layouts, compared with the canonical bindings',
+            '§6 C13',
+            'partial: per-site coverage is finite-by-measurement on one covering module (corpus re-layout not yet included); multi-word '
+            'reserved words are a known finding',
+            'Coq proof (strong induction over trivia) + differential correspondence + exhaustive boundary sweep'),
 }
 NOT_YET = 'check not built yet in this session (planned, see DESIGN.md §6); not claimed until its proof and correspondence run'
 
